@@ -157,7 +157,7 @@ theorem history_from_creation {name : Asset → String} {w w1 : World} {s : Nat}
 
 /-- in any world satisfying the invariant a holder's withdrawal with the stated entitlement succeeds -/
 theorem withdraw_live_inv {name : Asset → String} {w : World} {p : Nat} {a0 a1 : Asset} {lp : Nat}
-    (hI : PairInv w p a0 a1 lp) {h a : Nat} (hhp : h ≠ p) (ha1 : 1 ≤ a)
+    (hI : PairInv w p a0 a1 lp) {h a : Nat} (hhp : h ≠ p) (hvalid : w.badAddr h = false) (ha1 : 1 ≤ a)
     (hab : a ≤ bal w (.token lp) h)
     (hr0 : bal w a0 p < W) (hr1 : bal w a1 p < W) (hSW : supply w lp < W)
     (hent0 : (bal w a0 p + 2 * E) * supply w lp ≤ bal w a0 p * a * E)
@@ -166,7 +166,7 @@ theorem withdraw_live_inv {name : Asset → String} {w : World} {p : Nat} {a0 a1
   obtain ⟨P, hP, e0, e1, e2⟩ := hI.pair
   subst e0 e1 e2
   obtain ⟨T, hT, _⟩ := hI.lpLive
-  obtain ⟨w', x0, x1, hh, b0, b1⟩ := Liquidity.withdraw_live hP hhp hI.distinct hI.notLp0 hI.notLp1
+  obtain ⟨w', x0, x1, hh, b0, b1⟩ := Liquidity.withdraw_live hP hhp hvalid hI.distinct hI.notLp0 hI.notLp1
     (by rw [hT]; rfl) hI.live0 hI.live1 ha1 hab (Nat.le_trans hab (Liquidity.tokSumOK_holder hI.sumOK))
     hr0 hr1 hSW hent0 hent1
   refine ⟨w', x0, x1, ?_, b0, b1⟩
@@ -177,7 +177,7 @@ theorem withdraw_live_inv {name : Asset → String} {w : World} {p : Nat} {a0 a1
 
 theorem withdraw_live_after_history {name : Asset → String} {p : Nat} {a0 a1 : Asset} {lp : Nat}
     (ops : List Op) (w : World) (hinv : PairInv w p a0 a1 lp) (hv : ValidRun name w ops)
-    {h a : Nat} (hhp : h ≠ p) (ha1 : 1 ≤ a)
+    {h a : Nat} (hhp : h ≠ p) (hvalid : w.badAddr h = false) (ha1 : 1 ≤ a)
     (hab : a ≤ bal (run name w ops) (.token lp) h)
     (hr0 : bal (run name w ops) a0 p < W) (hr1 : bal (run name w ops) a1 p < W)
     (hSW : supply (run name w ops) lp < W)
@@ -185,7 +185,7 @@ theorem withdraw_live_after_history {name : Asset → String} {p : Nat} {a0 a1 :
     (hent1 : (bal (run name w ops) a1 p + 2 * E) * supply (run name w ops) lp ≤ bal (run name w ops) a1 p * a * E) :
     ∃ w' x0 x1, exec name (run name w ops) (.tokSend lp h p a .withdraw) = .ok (w', .withdraw x0 x1) ∧
       2 ≤ x0 ∧ 2 ≤ x1 :=
-  withdraw_live_inv (pairInv_run ops w hinv hv) hhp ha1 hab hr0 hr1 hSW hent0 hent1
+  withdraw_live_inv (pairInv_run ops w hinv hv) hhp (by rw [RegOKP.badAddr_run]; exact hvalid) ha1 hab hr0 hr1 hSW hent0 hent1
 
 /-- the same from genesis: the pair was created by the factory, then anything happened -/
 theorem withdraw_live_from_creation {name : Asset → String} {w w1 : World} {s : Nat} {f : List (Nat × Nat)}
@@ -193,7 +193,7 @@ theorem withdraw_live_from_creation {name : Asset → String} {w w1 : World} {s 
     (hv : ValidOp w (.factory s f (.createPair a0 a1 req c ld np nl))) (hn : NewAddrs w np nl)
     (hc : exec name w (.factory s f (.createPair a0 a1 req c ld np nl)) = .ok (w1, out))
     (ops : List Op) (hvr : ValidRun name w1 ops)
-    {h a : Nat} (hhp : h ≠ np) (ha1 : 1 ≤ a)
+    {h a : Nat} (hhp : h ≠ np) (hvalid : w.badAddr h = false) (ha1 : 1 ≤ a)
     (hab : a ≤ bal (run name w1 ops) (.token nl) h)
     (hr0 : bal (run name w1 ops) a0 np < W) (hr1 : bal (run name w1 ops) a1 np < W)
     (hSW : supply (run name w1 ops) nl < W)
@@ -201,6 +201,6 @@ theorem withdraw_live_from_creation {name : Asset → String} {w w1 : World} {s 
     (hent1 : (bal (run name w1 ops) a1 np + 2 * E) * supply (run name w1 ops) nl ≤ bal (run name w1 ops) a1 np * a * E) :
     ∃ w' x0 x1, exec name (run name w1 ops) (.tokSend nl h np a .withdraw) = .ok (w', .withdraw x0 x1) ∧
       2 ≤ x0 ∧ 2 ≤ x1 :=
-  withdraw_live_after_history ops w1 (created_pair_inv hv hn hc).1 hvr hhp ha1 hab hr0 hr1 hSW hent0 hent1
+  withdraw_live_after_history ops w1 (created_pair_inv hv hn hc).1 hvr hhp (by rw [RegOKP.badAddr_exec hc]; exact hvalid) ha1 hab hr0 hr1 hSW hent0 hent1
 
 end Halo.C03G
